@@ -516,6 +516,42 @@ func TestC16(t *testing.T) {
 		tick()
 	}
 
+	// ---- (4b) the default limit after reads with other limits ---------------------------------------
+	// ReadFrameFrom applies the default limit of 16384 octets whatever an earlier reader asked for: frame headers are
+	// pooled, and a limit must not travel with one. A read with another limit (or none: 0), a release, then a plain read.
+	nl := r.Pick(3000, 100000)
+	for i := 0; i < nl; i++ {
+		id := fmt.Sprintf("limit/%d", i)
+		if !r.Want(i, id) {
+			continue
+		}
+		rng := r.Rand(id)
+		first := []uint32{0, 100, 20000, 1 << 20, 1<<24 - 1}[rng.Intn(5)]
+		firstLen := []int{0, 50, 101, 16384, 20001, 70000}[rng.Intn(6)]
+		secondLen := []int{16384, 16385, 20000, 70000, 300000}[rng.Intn(5)]
+		typ := []byte{wire.TData, wire.THeaders, wire.TContinuation, 0x42}[rng.Intn(4)]
+		replay := map[string]any{"first_limit": first, "first_length": firstLen, "second_length": secondLen, "type": typ}
+		r.Guard("C16.frame-parse-panic", id, nil, replay, func() {
+			in1 := append(wire.Frame(nil, wire.TData, 0, 1, make([]byte, firstLen), -1), sentinelPing...)
+			if fr, err := http2.ReadFrameFromWithSize(bufio.NewReaderSize(bytes.NewReader(in1), 4096), first); err == nil {
+				http2.ReleaseFrameHeader(fr)
+			}
+			in2 := append(wire.Frame(nil, typ, 0, 1, make([]byte, secondLen), -1), sentinelPing...)
+			fr, err := http2.ReadFrameFrom(bufio.NewReaderSize(bytes.NewReader(in2), 4096))
+			switch {
+			case secondLen > 16384 && err == nil:
+				r.Fail("C16.frame-over-limit-accepted", id, fmt.Sprintf("ReadFrameFrom (default limit 16384) accepted a frame of type %d announcing %d octets; the read before it on this goroutine used ReadFrameFromWithSize with limit %d", typ, secondLen, first), nil, replay)
+			case secondLen <= 16384 && typ != 0x42 && err != nil:
+				r.Fail("C16.frame-within-limit-rejected", id, fmt.Sprintf("ReadFrameFrom (default limit 16384) refused a frame of type %d with %d octets: %v; the read before it used ReadFrameFromWithSize with limit %d", typ, secondLen, err, first), nil, replay)
+			}
+			if err == nil && fr != nil {
+				http2.ReleaseFrameHeader(fr)
+			}
+		})
+		r.Eval(vf.Hash("limit", first, firstLen > int(first) && first != 0, secondLen > 16384, typ), true)
+		tick()
+	}
+
 	// ---- (5) HPACK on arbitrary bytes ------------------------------------------------------------
 	nh := r.Pick(60000, 3000000)
 	for i := 0; i < nh; i++ {
